@@ -117,7 +117,12 @@ def worker(shard, nshards, tier, seed):
                                               "method": method, "args": e1.arg_src(args),
                                               "tier": tier})
 
-        seen, ntr = e1.bfs(kind, tier, MAXLEN[tier], on_tr)
+        def on_st(s, chain, cache=cache):
+            # the receiver as it is BEFORE any call is made on it (props first, then the printed
+            # form: a representor that rearranges what it prints shows as a change of props)
+            cache.setdefault(id(s), (fp(s), safe_repr(s)))
+
+        seen, ntr = e1.bfs(kind, tier, MAXLEN[tier], on_tr, on_st)
         acc.count("states", len(seen))
         acc.n[f"fixpoint:{kind}"] = int(e1.bfs.last_fixpoint)
         acc.n[f"states:{kind}"] = len(seen)
@@ -164,7 +169,8 @@ def _replay_inner(case):
         for tail in judge(kind, s, chain, method, args, out, cache[key]):
             sigs.add(f"C10|{tail}")
 
-    e1.bfs(kind, case.get("tier", "quick"), MAXLEN[case.get("tier", "quick")], on_tr)
+    e1.bfs(kind, case.get("tier", "quick"), MAXLEN[case.get("tier", "quick")], on_tr,
+           lambda s, chain: cache.setdefault(id(s), (fp(s), safe_repr(s))))
     return sorted(sigs)
 
 
